@@ -95,9 +95,15 @@ package sonic
 //@ func (*packetConn).asyncReadNow
 //@   prop C01, C12
 //@   requires pcInv(c) && cb != nil && !pcArmedR(c)
+//@   // the datagram is received into the caller's buffer
+//@   assert call packetConn).ReadFrom: [C12 buffer] alias(arg1, b)
 //@   remember after call packetConn).ReadFrom: moved = result2 == nil
+//@   remember after call packetConn).ReadFrom: got := result0
+//@   remember after call packetConn).ReadFrom: from := result1
 //@   // success is reported only if the datagram read now succeeded; would-block is waited for, never reported
 //@   assert call cb: [C12 no-swallowed-error] (arg0 == nil ==> moved) && arg0 != sonicerrors.ErrWouldBlock
+//@   // a completed read reports that datagram's length and sender
+//@   assert call cb: [C12 length-and-sender] arg0 == nil ==> arg1 == old(readBytes) + got && arg2 == from
 //@   consumes cb unless pcArmedR(c)
 //@   ensures [depth] c.ioc.Dispatched == old(c.ioc.Dispatched)
 
@@ -105,6 +111,8 @@ package sonic
 //@   prop C01
 //@   // the handler itself reports only the poller's error; success is reported by the operation it then attempts
 //@   assert call cb: err != nil && arg0 == err
+//@   // the deferred read is attempted into the buffer it was started with
+//@   assert call asyncReadNow: [C12 resumed-as-started] alias(arg1, b) && arg2 == readBytes && arg3 == readAll
 //@   requires c != nil && pcInv(c) && cb != nil && !pcArmedR(c)
 //@   consumes cb unless pcArmedR(c)
 
@@ -135,6 +143,8 @@ package sonic
 //@ func (*packetConn).asyncWriteToNow
 //@   prop C01, C12
 //@   requires pcInv(c) && cb != nil && !pcArmedW(c)
+//@   // one attempt, with exactly the caller's bytes and destination
+//@   assert call packetConn).WriteTo: [C12 datagram] alias(arg1, b) && arg2 == to
 //@   remember after call packetConn).WriteTo: moved = result == nil
 //@   assert call cb: [C12 no-swallowed-error] (arg0 == nil ==> moved) && arg0 != sonicerrors.ErrWouldBlock
 //@   consumes cb unless pcArmedW(c)
@@ -144,6 +154,8 @@ package sonic
 //@   prop C01
 //@   // the handler itself reports only the poller's error; success is reported by the operation it then attempts
 //@   assert call cb: err != nil && arg0 == err
+//@   // the deferred write is attempted with the bytes and destination it was started with
+//@   assert call asyncWriteToNow: [C12 resumed-as-started] alias(arg1, b) && arg2 == to
 //@   requires c != nil && pcInv(c) && cb != nil && !pcArmedW(c)
 //@   consumes cb unless pcArmedW(c)
 
